@@ -423,7 +423,11 @@ func (r *resolver) applyDeviation(y *Module, d *Deviation) error {
 			notifs := target.Parent().(HasNotifications).Notifications()
 			delete(notifs, target.Ident())
 		case *ChoiceCase:
-			delete(target.Parent().(*Choice).cases, target.Ident())
+			choice, valid := target.Parent().(*Choice)
+			if !valid {
+				return fmt.Errorf("%s - cannot remove case %s from %T", SchemaPath(d), target.Ident(), target.Parent())
+			}
+			delete(choice.cases, target.Ident())
 		default:
 			hasDDefs, valid := target.Parent().(HasDataDefinitions)
 			if !valid {
@@ -481,6 +485,9 @@ func (r *resolver) applyDeviation(y *Module, d *Deviation) error {
 		}
 		if (units != "" && hasType == nil) || (hasDefault && hasDflt == nil) {
 			return fmt.Errorf("%s does not support units or default", d.Ident())
+		}
+		if _, isAny := target.(*Any); isAny && (units != "" || hasDefault) {
+			return fmt.Errorf("%s - anydata and anyxml have neither units nor default", SchemaPath(d))
 		}
 		if hasUnique {
 			if _, isList := target.(*List); !isList {
